@@ -214,14 +214,13 @@ deriving Repr, DecidableEq
 /-- the part of handle_start_advertising in front of the scheduling: advertising data filled and
     not empty, and start/stop/count permit a PDU -/
 def startGate (s : St) : St × Bool :=
-  let s := { s with selected := s.proposal }
-  let (s, nonEmpty) := fillSel s
-  if nonEmpty then beginEvents s else (s, false)
+  let r := fillSel { s with selected := s.proposal }
+  if r.2 then beginEvents r.1 else (r.1, false)
 
 /-- src: advertiser::handle_start_advertising (single and multiple type variant) -/
 def handleStart (s : St) : St × Option (Nat × Nat) :=
-  let (s, go) := startGate s
-  if go then (s, some (currentChannel s, 0)) else (s, none)
+  let r := startGate s
+  if r.2 then (r.1, some (currentChannel r.1, 0)) else (r.1, none)
 
 /-- `this->next_channel()` followed by `this->next_adv_event()` as used by handle_adv_timeout;
     `none`: assertion failure / undefined behaviour (empty channel map) -/
@@ -229,21 +228,26 @@ def nextChannelAndDelay (s : St) : Option (St × Nat) :=
   let next := if s.cfg.varMap then nextIdxVar s.idx s.map else some (nextIdxAll s.idx)
   next.bind fun i => nextAdvEvent { s with idx := i }
 
-/-- the part of handle_adv_timeout in front of `next_channel()`: which advertising data is used
-    (`fill_…` or `get_advertising_data`) and whether start/stop/count permit another PDU -/
+/-- handle_adv_timeout: `selected_ != proposal_ || l2cap_adverting_data_or_scan_response_data_changed()`
+    (short circuit: the changed flag is only consumed when the types are equal) decides between
+    `fill_advertising_data` and `get_advertising_data`; the Bool: the data is not empty -/
+def chooseData (s : St) : St × Bool :=
+  if s.selected ≠ s.proposal then fillSel { s with selected := s.proposal }
+  else if s.dirty then fillSel { s with dirty := false, selected := s.proposal }
+  else ({ s with dirty := false, selected := s.proposal },
+        getSel { s with dirty := false, selected := s.proposal })
+
+/-- the part of handle_adv_timeout in front of `next_channel()`: data not empty and
+    start/stop/count permit another PDU -/
 def timeoutGate (s : St) : St × Bool :=
-  -- `selected_ != proposal_ || l2cap_adverting_data_or_scan_response_data_changed()`
-  let (s, fillData) :=
-    if s.selected ≠ s.proposal then (s, true) else ({ s with dirty := false }, s.dirty)
-  let s := { s with selected := s.proposal }
-  let (s, nonEmpty) := if fillData then fillSel s else (s, getSel s)
-  if nonEmpty then continuedEvents s else (s, false)
+  let r := chooseData s
+  if r.2 then continuedEvents r.1 else (r.1, false)
 
 /-- src: advertiser::handle_adv_timeout; outer `none`: assertion failure in next_channel -/
 def handleTimeout (s : St) : Option (St × Option (Nat × Nat)) :=
-  let (s, go) := timeoutGate s
-  if go then (nextChannelAndDelay s).map fun (s', d) => (s', some (currentChannel s', d))
-  else some (s, none)
+  let r := timeoutGate s
+  if r.2 then (nextChannelAndDelay r.1).map fun x => (x.1, some (currentChannel x.1, x.2))
+  else some (r.1, none)
 
 /-- src: advertiser::handle_adv_receive; first component of the result: the accepted initiator -/
 def handleReceive (s : St) (pdu : List UInt8) : Option (St × Option Addr × Option (Nat × Nat)) :=
